@@ -52,6 +52,7 @@ func (m *mockTrustStore) GetCertificates(ctx context.Context, storeType truststo
 // ---- revocation ------------------------------------------------------------
 
 type revCall struct {
+	TimeWrong   bool // a signing time was handed over, and it is not the instant the signature states
 	ChainLen    int
 	ZeroTime    bool
 	Iface       string
@@ -63,6 +64,7 @@ type mockRevocation struct {
 	vec            []revresult.Result // per certificate (leaf first); nil => all OK
 	method         revresult.RevocationMethod
 	srvErr         bool
+	wantTime       time.Time // the authentic signing time the validator is to be handed (zero: not checked)
 	noServers      bool // without srvErr: no per-server entries at all
 	mirror         bool // with srvErr: the error belongs to a second, unreachable server; the verdict came from another one
 	err            error
@@ -111,6 +113,9 @@ func (m *mockRevocation) record(chain []*x509.Certificate, t time.Time, iface st
 	m.mu.Lock()
 	defer m.mu.Unlock()
 	c := revCall{ChainLen: len(chain), ZeroTime: t.IsZero(), Iface: iface}
+	if !t.IsZero() && !m.wantTime.IsZero() && !t.Equal(m.wantTime) {
+		c.TimeWrong = true
+	}
 	for _, x := range chain {
 		c.ChainThumbs = append(c.ChainThumbs, thumb(x))
 	}
